@@ -28,6 +28,7 @@ type c13Case struct {
 	Redirect string      `json:"redirect,omitempty"`
 	Then     string      `json:"then,omitempty"`
 	Decline  int         `json:"decline,omitempty"`
+	Origin   string      `json:"origin,omitempty"`
 	Cancel   bool        `json:"cancel,omitempty"`
 	BodyLen  int         `json:"body_len,omitempty"`
 	Chunked  bool        `json:"chunked,omitempty"`
@@ -204,7 +205,7 @@ func c13NonShim(rng *rand.Rand, n int, seed int64) []c13Case {
 // C13 — the websocket shim only ever connects to the configured backend.
 func C13(r *core.Run) {
 	r.Level = "exploration"
-	r.SetRule("websockets.Proxy driven in-process (race-built worker, agent's GODEBUG defaults, real gorilla backend, one case at a time per process); observation: every (network,address) handed to websocket.DefaultDialer.NetDialContext, plus request URI and Host the backend's websocket server received. Open bodies: an enumerated corpus of URL syntax classes (absolute ws/wss/http/other, scheme-relative, path-only, opaque, empty, userinfo, IP literals, ports, percent-encoded hosts, back-slashes, odd slashes, fragments, CR/LF, very long, unicode hosts, whitespace, query tricks), seeded mutations (splice, insert special, delete, duplicate) and random byte / ASCII strings, each with rewriteWebsocketHost on and off; every pass-through request carries its own context (a value the wrapped handler must see; every fourth is cancelled by the client while the wrapped handler runs, which must see ctx.Done() within 5 s); browser navigation requests (Accept mentioning html in any case and q-value x Accept-Encoding br, zstd, identity, gzip/deflate/br, q-values x GET/POST) compared header for header; plus pass-through uploads of 8 MiB+1 to 20 MiB (Content-Length and chunked) compared byte for byte at the wrapped handler; plus whole-session histories (open with an absolute / scheme-relative / IP-literal / odd-port URL, the backend drops the websocket abruptly or gracefully, the client goes on with data, poll, data, close, data - the dial observer stays on for all of it); plus bursts of 16 goroutines opening concurrently on one handler, every body naming its own foreign host, port, path and query (dial addresses and per-connection request URI checked; race detector on); plus a backend that turns the first handshake of an open down (403, 404 or a 200 page) and would accept a second one, with Host and request URI of every handshake request it receives judged; plus a backend that answers the handshake with a redirect: statuses {301,302,307,308} x Location {absolute foreign ws, absolute foreign http, scheme-relative foreign, path-only, absolute to the backend, request path plus a trailing slash} x 8 URL shapes incl. paths beginning with //host. Pass-through: requests for ordinary paths and near misses of the shim prefix (two shim paths), random methods/headers/bodies/scripted responses; class = URL syntax class | near-miss class")
+	r.SetRule("websockets.Proxy driven in-process (race-built worker, agent's GODEBUG defaults, real gorilla backend, one case at a time per process); observation: every (network,address) handed to websocket.DefaultDialer.NetDialContext, plus request URI and Host the backend's websocket server received. Open bodies: an enumerated corpus of URL syntax classes (absolute ws/wss/http/other, scheme-relative, path-only, opaque, empty, userinfo, IP literals, ports, percent-encoded hosts, back-slashes, odd slashes, fragments, CR/LF, very long, unicode hosts, whitespace, query tricks), seeded mutations (splice, insert special, delete, duplicate) and random byte / ASCII strings, each with rewriteWebsocketHost on and off, a third of them with an Origin header (which must reach the backend as sent; no handshake header may contain the host of the body URL); every pass-through request carries its own context (a value the wrapped handler must see; every fourth is cancelled by the client while the wrapped handler runs, which must see ctx.Done() within 5 s); browser navigation requests (Accept mentioning html in any case and q-value x Accept-Encoding br, zstd, identity, gzip/deflate/br, q-values x GET/POST) compared header for header; plus pass-through uploads of 8 MiB+1 to 20 MiB (Content-Length and chunked) compared byte for byte at the wrapped handler; plus whole-session histories (open with an absolute / scheme-relative / IP-literal / odd-port URL, the backend drops the websocket abruptly or gracefully, the client goes on with data, poll, data, close, data - the dial observer stays on for all of it); plus bursts of 16 goroutines opening concurrently on one handler, every body naming its own foreign host, port, path and query (dial addresses and per-connection request URI checked; race detector on); plus a backend that turns the first handshake of an open down (403, 404 or a 200 page) and would accept a second one, with Host and request URI of every handshake request it receives judged; plus a backend that answers the handshake with a redirect: statuses {301,302,307,308} x Location {absolute foreign ws, absolute foreign http, scheme-relative foreign, path-only, absolute to the backend, request path plus a trailing slash} x 8 URL shapes incl. paths beginning with //host. Pass-through: requests for ordinary paths and near misses of the shim prefix (two shim paths), random methods/headers/bodies/scripted responses; class = URL syntax class | near-miss class")
 	r.Assume("expected request URI = net/url's escaped path (\"/\" prefixed when missing) + \"?\" + raw query of the supplied URL; how a percent-encoded spelling of the prefix (/shim%2Fopen, /%73him/open) is routed is left to ServeMux and only recorded; paths ServeMux redirects by itself are not generated; the syscall-level (strace) sample of DESIGN.md is not run: the dial hook sees every address before the socket is created")
 	bin := r.MustBuild(r.BuildWorker())
 	godebug := "GODEBUG=" + shimGodebug(r)
@@ -236,8 +237,18 @@ func C13(r *core.Run) {
 	for i, e := range entries {
 		c := c13Case{ID: fmt.Sprintf("u%d-%d", r.Seed, i), Kind: "url", Class: e.class, B64: base64.StdEncoding.EncodeToString([]byte(e.url)),
 			Rewrite: i%2 == 1, Host: []string{"client.example", "evil-host.example:8080"}[(i/2)%2]}
+		if i%3 == 0 {
+			c.Origin = []string{"https://client.example", "http://client.example:8080", "null"}[(i/3)%3]
+		}
 		cases = append(cases, c)
 		bodyOf[c.ID] = e.url
+	}
+	for i, u := range []string{"wss://trusted.example/ws", "//trusted.example:444/ws", "ws://trusted.example:444/ws?x=1", "https://[2001:db8::1]:8443/ws", "ws://10.1.2.3/ws"} {
+		for j, origin := range []string{"https://client.example", "https://attacker.example"} {
+			c := c13Case{ID: fmt.Sprintf("o%d-%d-%d", r.Seed, i, j), Kind: "url", Class: "origin-and-foreign-body-host", B64: base64.StdEncoding.EncodeToString([]byte(u)), Rewrite: (i+j)%2 == 1, Host: "client.example", Origin: origin}
+			cases = append(cases, c)
+			bodyOf[c.ID] = u
+		}
 	}
 	// a backend that answers the handshake with a redirect: every status x Location kind x URL shape
 	// (incl. paths that start with //host, which a trailing-slash redirect turns into a scheme-relative Location)
